@@ -194,7 +194,9 @@ func (m *Manager) CloseAll() error {
 			}
 		}
 		verifYield(401)
-		m.caches.Delete(key)
+		// forget only the instance that was just closed: a concurrent CloseAll or
+		// Remove may already have dropped it and a caller re-created the name.
+		m.caches.CompareAndDelete(key, value)
 		return true
 	})
 
